@@ -57,6 +57,8 @@ int main() {
   Machine m = draw_machine(maxT);
   int regions = (int)vsim_param("regions", 1, 6);
   vsim_enable_fault(VF_CAS_WEAK, 0.005, 0.1);
+  vsim_enable_fault(VF_PLAIN_PREEMPT, 0.02, 0.6);   // plain shared data of the library (behind locks, in shared helper state) becomes preemptible
+  vsim_plain_preempt_window(1);   // operators here keep no shared non-atomic bookkeeping of their own
   vsim_enable_fault(VF_COND_SPURIOUS, 0.02, 0.3);
   vsim_enable_fault(VF_LATE_START, 0.05, 0.5);
   vsim_set_budget(6000000);
